@@ -88,6 +88,8 @@ def write_rtf(doc: dict) -> bytes:
         head += "{\\header\\pard\\plain " + _rtf_inl(doc["header"]) + "\\par}\n"
     if doc.get("footer"):
         head += "{\\footer\\pard\\plain " + _rtf_inl(doc["footer"]) + "\\par}\n"
+    for kind, inls in (doc.get("hf_extra") or []):      # further header / footer kinds: headerf, headerl, footerr, ...
+        head += "{\\" + kind + "\\pard\\plain " + _rtf_inl(inls) + "\\par}\n"
     if "pages" in doc:
         body = ""
         for k, pg in enumerate(doc["pages"]):
